@@ -375,8 +375,11 @@ pub fn run() {
     let mut grid_rows = 0u64;
     for (si, &(off, w)) in specs.iter().enumerate() {
         for bg in 0..4u64 {
-            // the quick grid gives every spec the random background and one of the three others
-            if level == 0 && bg != 3 && (si as u64 + bg) % 3 != 0 {
+            // every spec gets the random background and one of the three others; the thorough
+            // grid gives all four to the specs of six header bytes and to all aligned specs
+            let all_bgs = level >= 1
+                && (w >= 8 || [-16isize, -9, -1, 0, 7, 15].contains(&(off >> 3)));
+            if !all_bgs && bg != 3 && (si as u64 + bg) % 3 != 0 {
                 continue;
             }
             let salt = rng.next();
@@ -431,17 +434,26 @@ pub fn run() {
             prims.push((off, w, mk("upd", &one, &[], "add")));
             prims.push((off, w, mk("load_atomic", &[], &[], "")));
         }
-        let np = prims.len();
-        let total = (np as u64).pow(seqlen as u32);
-        for code in 0..total {
-            let salt = 7 + (code % 5);
-            d.fill(background(if code % 2 == 0 { 2 } else { 3 }, salt));
-            let mut c = code;
-            for _ in 0..seqlen {
-                let (off, w, op) = &prims[(c % np as u64) as usize];
-                c /= np as u64;
-                d.op(*off, *w, nat_ty(*w), op);
-                seq_rows += 1;
+        // all sequences of length 2 over the 40 primitives; for longer sequences every second
+        // primitive (store_atomic max, cas max->alt, add, and, fetch_update per field)
+        for len in 2..=seqlen {
+            let set: Vec<&(isize, usize, Op)> = if len == 2 {
+                prims.iter().collect()
+            } else {
+                prims.iter().step_by(2).collect()
+            };
+            let np = set.len();
+            let total = (np as u64).pow(len as u32);
+            for code in 0..total {
+                let salt = 7 + (code % 5);
+                d.fill(background(if code % 2 == 0 { 2 } else { 3 }, salt));
+                let mut c = code;
+                for _ in 0..len {
+                    let (off, w, op) = set[(c % np as u64) as usize];
+                    c /= np as u64;
+                    d.op(*off, *w, nat_ty(*w), op);
+                    seq_rows += 1;
+                }
             }
         }
     }
